@@ -215,6 +215,8 @@ class Fixture:
         self.write("mod.py", MOD)
         self.write("sub/__init__.py", "class Gadget:\n    pass\n")
         self.write("sub/inner.py", INNER)
+        # a half-removed module: importing it raises ImportError that is not ModuleNotFoundError
+        self.write("broken.py", "from os import no_such_name_in_os\n\n\nclass K:\n    pass\n")
         self.db = os.path.join(self.dir, "traces.sqlite3")
         with open(os.path.join(self.dir, name + "_cfg.py"), "w") as f:
             f.write(CFG.format(path=self.db, k=k))
